@@ -724,6 +724,10 @@ func fParse(t *sx, seed uint64, aflags, pf, via int) {
 			}
 		default:
 			dec := json.NewDecoder(bytes.NewReader(work))
+			first := pf&8 != 0 && len(work)%2 == 0 // the setters commute: either order
+			if first {
+				dec.DontMatchCaseInsensitiveStructFields()
+			}
 			if pf&7 == 7 {
 				dec.ZeroCopy()
 			} else {
@@ -737,7 +741,7 @@ func fParse(t *sx, seed uint64, aflags, pf, via int) {
 					dec.DontCopyRawMessage()
 				}
 			}
-			if pf&8 != 0 {
+			if pf&8 != 0 && !first {
 				dec.DontMatchCaseInsensitiveStructFields()
 			}
 			perr = dec.Decode(target.Interface())
@@ -947,6 +951,29 @@ func numDecode(flags json.ParseFlags, ctx int, lit []byte) (any, error) {
 	case 3:
 		doc = []byte(" \n" + string(lit) + "\t ")
 		get = func() any { return x }
+	case 8: // a nil value of a DEFINED empty interface type (decodeMaybeEmptyInterface), as a struct field
+		var st struct {
+			A NamedAny
+			B int
+		}
+		doc = []byte(`{"B":1,"A":` + string(lit) + `}`)
+		if _, err := json.Parse(doc, &st, flags); err != nil {
+			return nil, err
+		}
+		return any(st.A), nil
+	case 9: // ... as a slice element and a map value
+		var sl []NamedAny
+		var mp map[string]NamedAny
+		if _, err := json.Parse([]byte("[null,"+string(lit)+"]"), &sl, flags); err != nil {
+			return nil, err
+		}
+		if _, err := json.Parse([]byte(`{"k":`+string(lit)+`}`), &mp, flags); err != nil {
+			return nil, err
+		}
+		if numObs(any(sl[1])) != numObs(any(mp["k"])) {
+			return fmt.Sprintf("slice element %s, map value %s", numObs(any(sl[1])), numObs(any(mp["k"]))), nil
+		}
+		return any(sl[1]), nil
 	case 4:
 		var s []any
 		doc = []byte("[true, " + string(lit) + " ]")
@@ -979,8 +1006,25 @@ func numDecode(flags json.ParseFlags, ctx int, lit []byte) (any, error) {
 		if flags&json.UseNumber != 0 {
 			dec.UseNumber()
 		}
-		if flags&^(json.UseNumber) != 0 {
-			// the other three have no setter: ctx 7 is only generated for flag words within UseNumber
+		if flags&json.DisallowUnknownFields != 0 {
+			dec.DisallowUnknownFields()
+		}
+		// the copy setters come AFTER the others: a setter must add its flag, not replace the flag word
+		if flags&json.ZeroCopy == json.ZeroCopy {
+			dec.ZeroCopy()
+		} else {
+			if flags&json.DontCopyString != 0 {
+				dec.DontCopyString()
+			}
+			if flags&json.DontCopyNumber != 0 {
+				dec.DontCopyNumber()
+			}
+			if flags&json.DontCopyRawMessage != 0 {
+				dec.DontCopyRawMessage()
+			}
+		}
+		if flags&^(json.UseNumber|json.DisallowUnknownFields|json.ZeroCopy) != 0 {
+			// UseInt64/UseUint64/UseBigInt have no setter: ctx 7 is only generated for flag words without them
 			return nil, fmt.Errorf("no setter")
 		}
 		if err := dec.Decode(&x); err != nil {
@@ -1105,10 +1149,12 @@ var c14MapTypes = []string{
 	"(struct (f A <tag> int) (f B a&b str) (f C x>y (map str str)) (f D - RawMessage) (f E é (ptr RawMessage)))",
 	"(struct (f A <a> (struct (f B <b> (struct (f C <c> (map str RawMessage)))))))",
 	"(struct (f A <,omitempty int) (f B >,string int) (f C &,omitempty,string str))",
+	"namedany", "(slice namedany)", "(map str namedany)", "(struct (f A - namedany) (f B - any) (f C - (ptr namedany)))",
 	"any", "(slice any)", "(struct (f A - any) (f B <any> any))", "RawMessage", "(ptr RawMessage)", "(slice RawMessage)", "(struct (f R - RawMessage) (f P ,omitempty (ptr RawMessage)))",
 }
 
 func c14() {
+	jEncSeqAll() // failed encodes followed by other encodes (pooled scratch state)
 	g := &jgen{maxDepth: 3}
 	nT, nV := 700, 3
 	nRand := 10000
@@ -1178,10 +1224,13 @@ func c14() {
 	for li, lit := range c14NumLits {
 		for sub := 0; sub < 16; sub++ {
 			fNum(numFlagWord(sub), (li+sub)%7, []byte(lit))
+			fNum(numFlagWord(sub), 8+(li+sub)%2, []byte(lit))
 			fNum(numFlagWord(sub)|otherFlagWord(), rndn(7), []byte(lit))
 		}
 		fNum(0, 7, []byte(lit))
 		fNum(int(json.UseNumber), 7, []byte(lit))
+		fNum(int(json.UseNumber|json.ZeroCopy), 7, []byte(lit))
+		fNum(int(json.UseNumber|json.DontCopyNumber|json.DisallowUnknownFields), 7, []byte(lit))
 	}
 	for _, lit := range c14NumBad {
 		for sub := 0; sub < 16; sub++ {
@@ -1192,6 +1241,9 @@ func c14() {
 		lit := randNumLit()
 		sub := rndn(16)
 		fNum(numFlagWord(sub)|otherFlagWord(), rndn(7), []byte(lit))
+		if i%8 == 1 {
+			fNum(numFlagWord(sub)|otherFlagWord(), 8+rndn(2), []byte(lit))
+		}
 		if i%4 == 0 {
 			for sub := 0; sub < 16; sub++ {
 				fNum(numFlagWord(sub), 0, []byte(lit))
